@@ -214,8 +214,15 @@ def run_c06(chk):
     sessions = []
     for i in range(n):
         r = chk.rng.fork(("c06", i))
-        flavour = r.weighted([("typed", 45), ("faulty", 35), ("straight", 20)])
-        if flavour == "straight":
+        flavour = r.weighted([("typed", 35), ("faulty", 30), ("straight", 20), ("tree", 15)])
+        if flavour == "tree":
+            # structured programs from the syntax-tree generator of C03: every IF/ELSE form with statements before and
+            # after it on the line, transfers inside THEN, nested loops, subroutines, DEF FN
+            from . import refsem
+            k = r.below(len(refsem.FIXED) + 12)
+            tree = refsem.FIXED[k] if k < len(refsem.FIXED) else refsem.G(r, fault=r.choice([0.0, 0.0, 0.05])).generate(4 + r.below(8))
+            lines = refsem.to_text(tree)
+        elif flavour == "straight":
             lines = [f"{10 * (k + 1)} " + (r.choice(STRAIGHT_FAULTS) if r.chance(0.6) else gen.ProgGen(r, fault=0.3, use_input=False, use_fn=False).stmt_line())
                      for k in range(r.below(4) + 1)]
         else:
